@@ -29,7 +29,7 @@ def make_case(i, rng, tier):
     if not o.ok or o.items != inp["items"] or o.unspecified:
         raise HarnessError("generator/model self-check failed for %s: %s / %s" % (
             inp["label"], o.problem or o.unspecified, common.show_diff(o.items, inp["items"], "items")))
-    main = common.spec("main", inp, strict=True)
+    main = common.stray_cc(rng, common.spec("main", inp, strict=True))
     tasks, sched = common.perturb(rng, [main], roots=True)
     return {"input": {"root": inp["root"], "cc": inp["cc"], "enc": inp["enc"], "label": inp["label"],
                       "arms": sorted(set("%s.%s" % a for a in inp["arms"]))[:40]},
